@@ -150,7 +150,7 @@ func ruleR15a(h *H) {
 		ok, why := loopCallsForEveryElement(h, f, keyFn, batchPut)
 		h.Verdict(ok, rule, "index write covers every entry in "+ir.FuncName(f), h.P.Pos(f.Pos()), "every element of the index list is written", why)
 	}
-	idxT, _ := globalValueType(h, "server", "secondaryIndexesUpdateCallback")
+	_, _, idxT, _, _ := callbackSingletons(h)
 	if idxT == "" {
 		h.Anchor(rule, "the secondary index callback singleton")
 		return
